@@ -1383,7 +1383,7 @@ def run_scenario(scenario, on_event=None):
         # WebSocket object (then reused for the run proper) or on another one.  It has its own simulation;
         # whatever it leaves behind in the client is the only thing the run proper can see of it.
         pre = dict(scenario, attempts=prelude["attempts"], reactions=prelude.get("reactions", []), prelude=None,
-                   companion=None)
+                   companion=None, context_manager=bool(prelude.get("context_manager")))
         for k in ("masks", "_send_hook", "_idle_hook", "horizon"):
             pre.pop(k, None)
         pre_tr = run_scenario(pre)
@@ -1521,10 +1521,19 @@ def gc_collect_young():
 def _drive(ws, scenario, sim, tr, on_event, release=None, companion=None):
     global ACTIVE_COMPANION
     ACTIVE_COMPANION = companion
+    managed = bool(scenario.get("context_manager"))
+    if managed:
+        # the application uses the WebSocket as a context manager around this connection ("with ws: for event in ws")
+        ws.__enter__()
     try:
         return _drive_inner(ws, scenario, sim, tr, on_event, release, companion)
     finally:
         ACTIVE_COMPANION = None
+        if managed:
+            try:
+                ws.__exit__(None, None, None)
+            except Exception as error:
+                tr.abandon_error = "__exit__: %s: %s" % (type(error).__name__, error)
 
 
 def _drive_inner(ws, scenario, sim, tr, on_event, release=None, companion=None):
